@@ -178,9 +178,10 @@ PLAN = {
     "C02": dict(inv=[], prop=["OnlyAllowedChoices"], live=False,
                 quick=DAG_Q + ["ring2", "fanin2"], thorough=DAG_T + CYC_T,
                 neg=[(["pairL"], "nocompose", ["OnlyAllowedChoices"])], known_mc=[], extra_trace=[]),
-    "C03": dict(inv=["EndReached"], prop=["Monotone", "NoLateUpdate", "Terminates"], live=True,
-                quick=["pair", "chain3p", "fanin1", "ring2", "diamondp", "pullchain2", "fanoutshared", "lateidle", "ringfanin"],
-                thorough=DAG_T + CYC_T + ["lateidle"],
+    "C03": dict(inv=["EndReached"], prop=["Monotone", "NoLateUpdate", "NoUpdateAfterFinished", "Terminates"], live=True,
+                quick=["pair", "chain3p", "fanin1", "ring2", "diamondp", "pullchain2", "fanoutshared", "lateidle", "ringfanin",
+                       "finisher"],
+                thorough=DAG_T + CYC_T + ["lateidle", "finisher"],
                 neg=[], known_mc=[], extra_trace=[]),
     "C04": dict(inv=["NoFalseCycle", "UnbrokenNeverErr"],
                 prop=["CycleOnlyWhenReachable", "ResolvedCompletes", "UnbrokenReported"], live=True,
